@@ -59,10 +59,17 @@ def gen_record(R, reserved):
                 sp = R.choice(['R', 'S'])
                 vals[s] = sp
                 given[full] = sp
-    free = [(k, R.choice(gram.FREE_VALUES)) for k in R.sample(gram.FREE_KEYS, R.choice([0, 1, 1, 2, 2]))]
+    free = [(k, R.choice(gram.FREE_VALUES)) for k in R.sample(sorted(set(gram.free_keys(reserved))), R.choice([0, 1, 1, 2, 2]))]
     for k, v in free:
         given[k] = v
-    return vals, free, given
+    collide = []
+    if R.chance(0.12):
+        # a keyword spelled like the verbose name of a reserved key; what it means is not specified, but the
+        # reserved attribute must stay a number
+        k = R.choice(['weight', 'charge'] if reserved is gram.BASE_RESERVED else ['weight'])
+        free = free + [(k, R.choice(['44', '16', '2']))]
+        collide.append(k)
+    return vals, free, given, collide
 
 
 ATOM_TOKENS = [('C', 'C'), ('O', 'O'), ('N', 'N'), ('[CH2]', '[CH2'), ('[NH+]', '[NH+'), ('S', 'S'), ('[Si]', '[Si'), ('c', None)]
@@ -71,7 +78,7 @@ ATOM_TOKENS = [('C', 'C'), ('O', 'O'), ('N', 'N'), ('[CH2]', '[CH2'), ('[NH+]', 
 def gen(R, tier):
     level = R.choice(['base', 'base', 'coarse', 'atom', 'atom'])
     reserved = gram.BASE_RESERVED if level == 'base' else gram.FRAG_RESERVED
-    vals, free, given = gen_record(R, reserved)
+    vals, free, given, collide = gen_record(R, reserved)
     arr = arrangements(reserved, vals, free)
     reuse = R.choice([1, 1, 2, 3, 4])
     if level == 'base':
@@ -133,9 +140,9 @@ def gen(R, tier):
     how = R.choice(['mult', 'written'])
     base = '{[#X]|%d}' % reuse if how == 'mult' else '{' + '[#X]' * reuse + '}'
     case.update(input=variants[-1] if variants else template, template=template, variants=variants, given=given,
-                reuse=reuse, base=base,
+                reuse=reuse, base=base, collide=collide,
                 features=sorted({'level:' + level, 'keys:%d' % len(given), 'reuse:%d' % reuse} |
-                                ({'free_key'} if free else set()) |
+                                ({'free_key'} if free else set()) | ({'keyword_spelled_like_verbose_reserved_name'} if collide else set()) |
                                 ({'numeric:' + ('plain' if v.lstrip('+-').replace('.', '', 1).isdigit() else 'exp') for v in vals.values()
                                   if v not in ('R', 'S')})))
     return case
@@ -153,9 +160,16 @@ def key(case):
     return case['level'] + '|' + case['template'] + '|' + repr(sorted(case['given'].items())) + '|' + case['base']
 
 
+NUMBER = object()
+
+
 def _check_attrs(d, want, what, exact):
     for k, v in want.items():
         expect(k in d, 'annotation:missing', lambda: '%s: key %r missing in %r' % (what, k, d))
+        if v is NUMBER:
+            expect(isinstance(d[k], (int, float)) and not isinstance(d[k], bool), 'annotation:reserved-not-a-number',
+                   lambda: '%s: reserved key %r = %r (%s)' % (what, k, d[k], type(d[k]).__name__))
+            continue
         expect(d[k] == v and type(d[k]) is type(v), 'annotation:value',
                lambda: '%s: %r = %r (%s), expected %r (%s)' % (what, k, d[k], type(d[k]).__name__, v, type(v).__name__))
     if exact:
@@ -171,6 +185,7 @@ def oracle(case):
         if level == 'base':
             want = {'charge': 0.0, 'weight': 1.0}
             want.update(given)
+            want.update({k: NUMBER for k in case.get('collide', [])})
             g = sut(read_cgsmiles, text)
             w2 = dict(want)
             w2['fragname'] = 'A'
@@ -191,6 +206,7 @@ def oracle(case):
         full = case['base'] + '.{#X=' + text + '}'
         want = {'weight': 1.0}
         want.update(given)
+        want.update({k: NUMBER for k in case.get('collide', [])})
         # the template itself
         tmpl = sut(read_fragments, '{#X=' + text + '}', all_atom=not coarse)['X']
         _check_attrs(dict(tmpl.nodes[case['node']]), want, 'read_fragments(%s) node %d' % (text, case['node']), False)
